@@ -1,6 +1,6 @@
 #!/usr/bin/env python3
 """Development helper: run a command against a scratch copy of /repo with text edits applied.
-usage: withmut.py 'file::old::new' [...] -- cmd...
+usage: withmut.py 'file@@old@@new' [...] -- cmd...
 The scratch copy lives under $TMPDIR (outside /repo and /verif) and is removed afterwards."""
 import os, shutil, subprocess, sys, tempfile
 args = sys.argv[1:]
@@ -10,7 +10,7 @@ d = tempfile.mkdtemp(prefix="mrepo_")
 try:
     shutil.copytree("/repo/mako", os.path.join(d, "mako"))
     for e in edits:
-        f, old, new = e.split("::")
+        f, old, new = e.split("@@")
         p = os.path.join(d, f)
         s = open(p).read()
         if old not in s:
